@@ -20,6 +20,7 @@ package avro
 //@   ensures [C06,C17] i0 <  len(d.buf) ==> err == nil && res == d.buf[i0] && d.i == i0+1
 //@   ensures [C06,C17] i0 >= len(d.buf) ==> err != nil && d.i == i0
 //@   modifies d.i
+//@   emits RB(res)
 
 //@ func (*ReadBuf).uvarint
 //@   let i0 := d.i, n := len(d.buf)
@@ -43,6 +44,7 @@ package avro
 //@   ensures [C17] err != nil ==> uvBad(d.buf, i0, d.i, n)
 //@   ensures [C04,C17] err == nil ==> d.i == vend(d.buf, i0) && res == vval(d.buf, i0)
 //@   modifies d.i
+//@   emits RV(res)
 
 //@ func (*ReadBuf).Next
 //@   let i0 := d.i, n := len(d.buf)
@@ -294,6 +296,8 @@ package avro
 //@   ensures [C13,C02] tlen() == 2 && tkind(0) == evV && ta(0) == uint64(len(s)) && tkind(1) == evW && ta(1) == uint64(len(s))
 //@   ensures base(w.buf) == old(base(w.buf)) || newobj(w.buf)
 //@   modifies w.buf, BH[w.buf]
+//@   emits V(len(s))
+//@   emits W(len(s))
 
 //@ func (StringCodec).Read
 //@   implements Codec.Read
@@ -324,6 +328,8 @@ package avro
 //@   ensures [C13,C02] tlen() == 2 && tkind(0) == evV && ta(0) == uint64(len(s)) && tkind(1) == evW && ta(1) == uint64(len(s))
 //@   ensures base(w.buf) == old(base(w.buf)) || newobj(w.buf)
 //@   modifies w.buf, BH[w.buf]
+//@   emits V(len(s))
+//@   emits W(len(s))
 
 // ================================================================ the Codec interface contract
 //
@@ -355,8 +361,10 @@ package avro
 //@   modifies r.i
 //@   emits CS(this)
 
+//@ ghost omitv(c iface, p ptr) bool reads M
 //@ iface Codec.Omit
 //@   requires this != nil
+//@   ensures res == omitv(this, p)
 //@   pure
 
 //@ iface Codec.Write
@@ -380,3 +388,67 @@ package avro
 //@ type BytesCodec : dsz = 24 ; wfc = true ; cend(b, i) = vend(b, i) + int(vval(b, i)) ; wfval(p) = rdable(p, 24) && wfslice(membytes(p))
 //@ type StringCodec : dsz = 16 ; wfc = true ; cend(b, i) = vend(b, i) + int(vval(b, i)) ; wfval(p) = rdable(p, 16) && wfslice(memstr(p))
 //@ type nullCodec : dsz = 0 ; wfc = true ; cend(b, i) = i ; wfval(p) = true
+
+// ---------------------------------------------------------------- union.go (Avro: a union is encoded as a long branch index followed by the branch value)
+
+//@ type *unionOneAndNullCodec : dsz = dsz(this.codec) ; wfc = this != nil && this.codec != nil && wfc(this.codec) && this.nonNull <= 1 && 0 <= dsz(this.codec) ; \
+//@      cend(b, i) = (b[i] >> 1) == this.nonNull ? cend(this.codec, b, i+1) : i+1 ; wfval(p) = wfval(this.codec, p)
+//@ type *unionNullString : dsz = 16 ; wfc = this != nil && this.nonNull <= 1 ; \
+//@      cend(b, i) = (b[i] >> 1) == this.nonNull ? vend(b, i+1) + int(vval(b, i+1)) : i+1 ; wfval(p) = rdable(p, 16) && wfslice(memstr(p))
+
+//@ func (*unionOneAndNullCodec).Read
+//@   implements Codec.Read
+//@   let i0 := r.i, b0 := r.buf, sel := r.buf[r.i]
+//@   requires wfRBS(r) && wfc(asiface(u)) && (dsz(u.codec) > 0 ==> p != nil) && rawalloc(p, dsz(u.codec))
+//@   ensures [C03,C06] i0 < len(b0) && sel >= 4 ==> err != nil
+//@   ensures [C03] err == nil && sel == 2 * u.nonNull ==> tlen() == 2 && tkind(0) == evRB && tkind(1) == evCR && ta(1) == tag(u.codec) && tb(1) == uint64(data(u.codec)) && tc(1) == uint64(p)
+//@   ensures [C03] err == nil && sel == 2 * (1 - u.nonNull) ==> tlen() == 1 && tkind(0) == evRB
+//@   modifies r.i, M[p, dsz(u.codec)], r.rb.sData, r.rb.types, type resourceType, BH[r.rb.sData]
+
+//@ func (*unionOneAndNullCodec).Skip
+//@   implements Codec.Skip
+//@   let i0 := r.i, b0 := r.buf, sel := r.buf[r.i]
+//@   requires wfRB(r) && wfc(asiface(u))
+//@   ensures [C04,C06] i0 < len(b0) && sel >= 4 ==> err != nil
+//@   ensures [C04] err == nil && sel == 2 * u.nonNull ==> tlen() == 2 && tkind(1) == evCS && ta(1) == tag(u.codec) && tb(1) == uint64(data(u.codec))
+//@   ensures [C04] err == nil && sel == 2 * (1 - u.nonNull) ==> tlen() == 1
+//@   modifies r.i
+
+//@ func (*unionOneAndNullCodec).Write
+//@   implements Codec.Write
+//@   requires w != nil && wfc(asiface(u)) && wfval(u.codec, p)
+//@   ensures [C13,C02] omitv(u.codec, p) ==> tlen() == 1 && tkind(0) == evV && ta(0) == 1 - uint64(u.nonNull)
+//@   ensures [C13,C02] !omitv(u.codec, p) ==> tlen() == 2 && tkind(0) == evV && ta(0) == uint64(u.nonNull) && tkind(1) == evCW && ta(1) == tag(u.codec) && tb(1) == uint64(data(u.codec)) && tc(1) == uint64(p)
+//@   ensures base(w.buf) == old(base(w.buf)) || newobj(w.buf)
+//@   modifies w.buf, BH[w.buf]
+
+//@ func (*unionNullString).Read
+//@   implements Codec.Read
+//@   let i0 := r.i, b0 := r.buf, sel := r.buf[r.i]
+//@   requires wfRBS(r) && u != nil && u.nonNull <= 1 && p != nil && rawalloc(p, 16)
+//@   ensures [C03,C06] i0 < len(b0) && sel >= 4 ==> err != nil
+//@   ensures [C03] err == nil && sel == 2 * u.nonNull ==> len(memstr(p)) == int(vval(b0, i0+1)) && (forall k int :: 0 <= k && k < len(memstr(p)) ==> memstr(p)[k] == b0[vend(b0, i0+1)+k])
+//@   ensures [C03] err == nil && sel == 2 * (1 - u.nonNull) ==> r.i == i0 + 1 && memuint(p, 8) == old(memuint(p, 8)) && memuint(uintptr(p)+8, 8) == old(memuint(uintptr(p)+8, 8))
+//@   modifies r.i, M[p, 16], r.rb.sData, r.rb.types, type resourceType, BH[r.rb.sData]
+
+//@ func (*unionNullString).Skip
+//@   implements Codec.Skip
+//@   let i0 := r.i, b0 := r.buf, sel := r.buf[r.i]
+//@   requires wfRB(r) && u != nil && u.nonNull <= 1
+//@   ensures [C04,C06] i0 < len(b0) && sel >= 4 ==> err != nil
+//@   modifies r.i
+
+// the string is written as the null branch exactly when its own Omit says so (omitempty and empty)
+//@ func (*unionNullString).Write
+//@   implements Codec.Write
+//@   let s := memstr(p), om := u.codec.omitEmpty && len(memstr(p)) == 0
+//@   requires w != nil && u != nil && u.nonNull <= 1 && rdable(p, 16) && wfslice(s) && (len(s) == 0 || base(s) != base(w.buf))
+//@   ensures [C13,C02] om ==> tlen() == 1 && tkind(0) == evV && ta(0) == 1 - uint64(u.nonNull)
+//@   ensures [C13,C02] !om ==> tlen() == 3 && tkind(0) == evV && ta(0) == uint64(u.nonNull) && tkind(1) == evV && ta(1) == uint64(len(s)) && tkind(2) == evW && ta(2) == uint64(len(s))
+//@   ensures base(w.buf) == old(base(w.buf)) || newobj(w.buf)
+//@   modifies w.buf, BH[w.buf]
+
+//@ func (StringCodec).Omit
+//@   ensures res == (sc.omitEmpty && len(memstr(p)) == 0)
+//@   requires p != nil
+//@   pure
